@@ -536,6 +536,36 @@ func (s *Sys) exec1(toks []string) string {
 			return fmt.Sprintf("wp(%s;ops=%s;fl=%s)", errStr(err), strings.Join(ops, ","), strings.Join(fl, ","))
 		case "lvfo":
 			return errStr(t.LoadVersionForOverwriting(atoi(toks[1])))
+		case "pintest":
+			// two exports of one version, the first closed twice (allowed): the second one still
+			// holds the version, deleting it must be refused; nothing is deleted by this operation
+			v := atoi(toks[1])
+			imm, err := t.GetImmutable(v)
+			if err != nil {
+				return "err"
+			}
+			a, err := imm.Export()
+			if err != nil {
+				return "err"
+			}
+			b, err := imm.Export()
+			if err != nil {
+				a.Close()
+				return "err"
+			}
+			a.Close()
+			a.Close()
+			derr := t.DeleteVersionsTo(v)
+			// neither may the version be removed from above (DeleteVersionsFrom(v) covers v)
+			ferr := t.DeleteVersionsFrom(v)
+			b.Close()
+			if derr == nil {
+				return "pin(viol:deleted-under-an-open-export)"
+			}
+			if ferr == nil {
+				return "pin(viol:rolled-back-under-an-open-export)"
+			}
+			return "pin(ok)"
 		case "dvfrom":
 			// MutableTree.DeleteVersionsFrom(v) on a tree that has loaded a version below v and goes
 			// on writing without reloading
